@@ -120,6 +120,7 @@ package sourceaddrs
 //@   sweep
 
 //@ func ParseRemoteSource -> (r, err)
+//@   replay makeRemote:
 //@   pure
 //@   sweep
 //@   ensures C07.Parse.policy: err == nil ==> remotePolicy(r) && normSub(r.subPath)
@@ -144,6 +145,7 @@ package sourceaddrs
 //@     && (R.pkg.sourceType == "git" ==> R.pkg.url.Scheme == "ssh" || R.pkg.url.Scheme == "https")
 //@     && (R.pkg.sourceType != "git" ==> R.pkg.url.Scheme == "https")
 //@ func makeRemoteSource -> (r, err)
+//@   replay makeRemote:
 //@   modifies u
 //@   sweep
 //@   requires C19.u: u != nil
@@ -159,6 +161,7 @@ package sourceaddrs
 //@   ensures C07.Make.nouser: err == nil ==> r.pkg.url.User == nil
 
 //@ func (gitSourceType).PrepareURL -> (err)
+//@   replay makeRemote:
 //@   modifies u
 //@   sweep
 //@   requires pre.u: u != nil
@@ -169,6 +172,7 @@ package sourceaddrs
 //@   ensures C07.git.unchanged: u.Scheme == old(u.Scheme) && u.User == old(u.User) && u.RawQuery == old(u.RawQuery)
 
 //@ func (httpSourceType).PrepareURL -> (err)
+//@   replay makeRemote:
 //@   modifies u
 //@   sweep
 //@   requires pre.u: u != nil
@@ -208,6 +212,7 @@ package sourceaddrs
 //@   pure
 //@   sweep
 //@ func ParseRemotePackage -> (r, err)
+//@   replay makeRemote:
 //@   pure
 //@   sweep
 //@   ensures C07.ParsePkg.policy: err == nil ==> (r.sourceType == "git" || r.sourceType == "http" || r.sourceType == "https")
